@@ -28,6 +28,10 @@ func vC11Sections(c *Client) []string {
 			c.Query(vCtx, &dynamodb.QueryInput{TableName: tbl, KeyConditionExpression: aws.String("p = :p"), ExpressionAttributeValues: vItem{":p": vS(k)}})
 		}},
 		{"Scan", func() { c.Scan(vCtx, &dynamodb.ScanInput{TableName: tbl}) }},
+		{"QueryIndex", func() {
+			c.Query(vCtx, &dynamodb.QueryInput{TableName: tbl, IndexName: aws.String(vIdx), KeyConditionExpression: aws.String("g = :g"), ExpressionAttributeValues: vItem{":g": vS("gv")}})
+		}},
+		{"ScanIndex", func() { c.Scan(vCtx, &dynamodb.ScanInput{TableName: tbl, IndexName: aws.String(vIdx)}) }},
 		{"BatchWriteItem", func() {
 			c.BatchWriteItem(vCtx, &dynamodb.BatchWriteItemInput{RequestItems: map[string][]types.WriteRequest{vTbl: {{PutRequest: &types.PutRequest{Item: vItem{"p": vS("b")}}}}}})
 		}},
@@ -59,7 +63,8 @@ func vC11Sections(c *Client) []string {
 // of conflicting accesses (same cell, at least one write) must hold a common mutex.
 func VerifC11Locks() {
 	c := vClient(false)
-	nd.Assert(vPut(c, vItem{"p": vS("0"), "v": vS("x")}) == nil, "setup-put")
+	nd.Assert(AddIndex(vCtx, c, vTbl, vIdx, "g", "") == nil, "setup-addindex")
+	nd.Assert(vPut(c, vItem{"p": vS("0"), "v": vS("x"), "g": vS("gv")}) == nil, "setup-put")
 	nd.Assert(AddTable(vCtx, c, "other", "p", "") == nil, "setup-addtable")
 	nd.Track(c)
 	names := vC11Sections(c)
